@@ -49,6 +49,7 @@ def _names_used(pid):
         t = open(p).read()
     except OSError:
         return set()
+    t = "\n".join(ln for ln in t.split("\n") if "accessor layer (lib/accessors.py)" not in ln)    # this layer's own blurb in EXPLANATION names no atom
     return set(re.findall(r"\b(?:is_\w+|get_\w+|has_\w+)\b", t))
 
 
